@@ -46,7 +46,7 @@ Explains(fin, r) ==
 \* implementation's parser returned, so the whole path source text -> behaviour is judged.
 ModelEnv(list) == << << "vi", VIntN(7) >>, << "x", VIntN(40) >>,
                     << "vl", VList([i \in 1..Len(list) |-> VIntN(list[i])]) >>,
-                    << "vm", [t |-> "map", e |-> << << VStr(<<97>>), VIntN(1) >>, << VStr(<<98>>), VIntN(0) >> >>, ord |-> TRUE] >> >>
+                    << "vm", [t |-> "map", e |-> << << VStr(<<97>>), VIntN(1) >>, << VStr(<<98>>), VIntN(0) >> >>, ord |-> FALSE] >> >>      \* the instance's iteration order is not known here
 \* a host function registered under an existing name replaces it
 FOf(r) == IF "overrides" \in DOMAIN r /\ r.overrides # << >>
           THEN [n \in DOMAIN F \cup {r.overrides[i] : i \in 1..Len(r.overrides)} |->
